@@ -182,7 +182,7 @@ def _forecaster(case, ctx):
     spec = case["spec"]
     rng = np.random.default_rng([case["dseed"], 1213])
     n = zoo.min_length(spec) + int(rng.integers(10, 25))
-    y = zoo.make_series(rng, n, positive=True, off=int(rng.choice([0, 9])), index=case["idx"])
+    y = zoo.make_series(rng, n, positive=True, off=int(rng.choice([0, 9])), index=case["idx"], integer=case["dseed"] % 5 == 0)
     X = pd.DataFrame({"x": rng.normal(0, 1, n)}, index=y.index) if case["withX"] else None
     name = zoo.describe(spec)
     f = zoo.build(spec)
@@ -287,6 +287,24 @@ def _panel(case, ctx):
             if ok:
                 ctx.check("apply.repeatable" if len(methods) == 1 else "apply.interleaved", _eq(first[m], b, 1e-12), "repeat:%s:%s:later-call-differs" % (m, name),
                           "repeating %s (with other apply-type calls in between) returned another result" % m)
+    # apply-type calls leave no trace: a long-lived estimator answers a sequence of different panels (reordered, sub-panels, one
+    # instance) like copies restored from the state right after fit that see only that panel
+    try:
+        state = pickle.dumps(est)
+    except Exception:  # noqa
+        state = None
+    if state is not None and first and not isinstance(Xte, np.ndarray):
+        nte = len(Xte)
+        seq = [Xte.iloc[::-1].reset_index(drop=True), Xte.iloc[:3].reset_index(drop=True), Xte.iloc[[nte - 1]].reset_index(drop=True), Xte.iloc[1:].reset_index(drop=True), Xte]
+        for qi, q in enumerate(seq):
+            for m in methods:
+                if m not in first:
+                    continue
+                ok1, r_long = ctx.call("%s:exception:%s" % (m, name), getattr(est, m), q)
+                ok2, r_fresh = ctx.call("%s:exception:%s" % (m, name), getattr(pickle.loads(state), m), q)
+                if ok1 and ok2:
+                    ctx.check("apply.interleaved", _eq(r_long, r_fresh, 1e-12), "interleave:%s:%s-depends-on-earlier-apply-calls" % (name, m),
+                              "%s of a long-lived estimator differs from that of a copy that has seen no other apply-type call" % m, call=qi, instances=len(q))
     ok, est2 = ctx.call("pickle:exception:" + name, lambda: pickle.loads(pickle.dumps(est)))
     if ok:
         for m in methods:
